@@ -53,6 +53,53 @@ func payloads(large bool) []payload {
 	return ps
 }
 
+// failingComp is a flate compressor that fails with its own error in a chosen call.
+type failingComp struct {
+	f          *flate.Writer
+	out        io.Writer
+	where      string
+	at         int
+	emitsFirst bool
+	err        error
+	calls      map[string]int
+}
+
+func (c *failingComp) hit(kind string) bool {
+	if c.calls == nil {
+		c.calls = map[string]int{}
+	}
+	n := c.calls[kind]
+	c.calls[kind]++
+	if kind == c.where && n == c.at {
+		if c.emitsFirst {
+			c.out.Write([]byte{0x4a, 0x4b})
+		}
+		return true
+	}
+	return false
+}
+
+func (c *failingComp) Write(p []byte) (int, error) {
+	if c.hit("Write") {
+		return 0, c.err
+	}
+	return c.f.Write(p)
+}
+
+func (c *failingComp) Flush() error {
+	if c.hit("Flush") {
+		return c.err
+	}
+	return c.f.Flush()
+}
+
+func (c *failingComp) Close() error {
+	if c.hit("Close") {
+		return c.err
+	}
+	return c.f.Close()
+}
+
 type compCtor struct {
 	name string
 	mk   func(w io.Writer) wsflate.Compressor
@@ -438,6 +485,65 @@ func main() {
 					}
 				}
 			}
+		})
+
+		// A compressor that fails on its own (Write, Flush or Close returning its error, at the first
+		// or a later call, before or after it has emitted bytes): the writer reports that error - not
+		// a complaint about the stream tail, which is the diagnosis for a compressor that *claims*
+		// success - now and on every later call.
+		r.Part("E1d-compressor-failing-on-its-own", func(t *explore.T) {
+			errComp := fmt.Errorf("compressor: out of memory")
+			for _, where := range []string{"Write", "Flush", "Close"} {
+				for _, at := range []int{0, 1} {
+					for _, emitsFirst := range []bool{false, true} {
+						for _, end := range []string{"Flush", "Close"} {
+							where, at, emitsFirst, end := where, at, emitsFirst, end
+							t.Do(func() string {
+								return fmt.Sprintf("compressor fails in its %s call #%d (has emitted bytes before: %v); writer ended with %s", where, at, emitsFirst, end)
+							}, func() *explore.Fail {
+								var dst bytes.Buffer
+								w := wsflate.NewWriter(&dst, func(out io.Writer) wsflate.Compressor {
+									f, _ := flate.NewWriter(out, 6)
+									return &failingComp{f: f, out: out, where: where, at: at, emitsFirst: emitsFirst, err: errComp}
+								})
+								var first error
+								note := func(e error) {
+									if first == nil {
+										first = e
+									}
+								}
+								_, e := w.Write([]byte("hello hello hello"))
+								note(e)
+								_, e = w.Write([]byte(" and more"))
+								note(e)
+								if end == "Flush" {
+									note(w.Flush())
+									note(w.Flush())
+								} else {
+									note(w.Close())
+								}
+								fc := false
+								if first != nil {
+									fc = true
+								}
+								if !fc {
+									// the failing call was not reached in this combination
+									t.Outcome("not-reached")
+									return nil
+								}
+								if first != errComp {
+									return explore.Failf("compressor-error-replaced", "the compressor failed with %q, the writer reports %q", errComp, first)
+								}
+								if w.Err() != errComp {
+									return explore.Failf("compressor-error-not-kept", "Err() = %v", w.Err())
+								}
+								return nil
+							})
+						}
+					}
+				}
+			}
+			t.Outcome("reported")
 		})
 
 		r.Part("E2-reader", func(t *explore.T) {
